@@ -639,6 +639,10 @@ pub enum BlockKind {
     /// the previous block again except for ONE byte (at a generated position): 0 complemented, 1 set to 00, 2 set to FF,
     /// 3 incremented - two neighbouring blocks that agree up to a point and then differ by a chosen pair of values
     NearCopy { at: u16, how: u8 },
+    /// a prefix (length a multiple of 4, 2 or 1 by `align`) followed by the first `take` bytes of the Reed-Solomon
+    /// remainder OF THAT PREFIX, then generated bytes: the running remainder's leading coefficients cancel against the
+    /// incoming data exactly there (a systematic code word, truncated)
+    PrefixPlusRemainder { prefix: u16, align: u8, take: u8 },
 }
 
 pub fn block_kind() -> BoxedStrategy<BlockKind> {
@@ -650,6 +654,7 @@ pub fn block_kind() -> BoxedStrategy<BlockKind> {
         2 => Just(BlockKind::GeneratorMultiple),
         1 => prop_oneof![2 => any::<u8>(), 1 => Just(0xFFu8), 1 => Just(0x01u8), 1 => Just(0x80u8)].prop_map(BlockKind::Constant),
         3 => (any::<u16>(), 0u8..4).prop_map(|(at, how)| BlockKind::NearCopy { at, how }),
+        3 => (any::<u16>(), 0u8..3, prop_oneof![Just(1u8), Just(2), Just(3), Just(4), Just(8), Just(255)]).prop_map(|(prefix, align, take)| BlockKind::PrefixPlusRemainder { prefix, align, take }),
     ]
     .boxed()
 }
@@ -697,6 +702,17 @@ pub fn block_payload(version: usize, level: Level, kinds: &[BlockKind], noise: &
                 (0..len).map(|i| d[off - pl + i % pl]).collect()
             }
             BlockKind::CopyOfPrevious => (0..len).map(|i| next(i)).collect(),
+            BlockKind::PrefixPlusRemainder { prefix, align, take } => {
+                let mut v: Vec<u8> = (0..len).map(|i| next(i + b) | 1).collect();
+                let unit = [4usize, 2, 1][align as usize % 3];
+                let p = (1 + pick(prefix, len.saturating_sub(1).max(1))) / unit * unit;
+                if p >= 1 && p < len {
+                    let rem = refmodel::gf::rs_remainder(&v[..p], lay.ec);
+                    let k = (take as usize).min(rem.len()).min(len - p);
+                    v[p..p + k].copy_from_slice(&rem[..k]);
+                }
+                v
+            }
             BlockKind::NearCopy { at, how } => {
                 let mut v: Vec<u8> = if b > 0 {
                     let pl = lay.data_len(b - 1);
